@@ -127,6 +127,9 @@ func c09Specs(tier string) []c09Spec {
 		specs = append(specs, c09Spec{name: name, build: build, expect: expect, events: []int{0, 1, 2}})
 	}
 	counts := []int{0, 1, 2, 3, 126, 127, 128, 129, 200, 255, 256, 257}
+	if tier == "thorough" {
+		counts = []int{0, 1, 2, 3, 4, 7, 8, 9, 15, 16, 17, 63, 64, 65, 120, 124, 125, 126, 127, 128, 129, 130, 131, 135, 160, 200, 250, 254, 255, 256, 257, 258, 260, 300, 511, 512, 513, 1000}
+	}
 	type opClass struct {
 		op   string
 		ty   Ty
@@ -269,6 +272,13 @@ func c09Specs(tier string) []c09Spec {
 		{"nary0", func() *Node { return Op("cn", TInt) }},
 	}
 	depths := []int{5, 6, 7, 8, 9, 10, 14, 15, 16, 17, 18, 30, 100, 126}
+	if tier == "thorough" {
+		depths = nil
+		for d := 2; d <= 40; d++ {
+			depths = append(depths, d)
+		}
+		depths = append(depths, 62, 63, 64, 65, 100, 125, 126)
+	}
 	for _, pk := range peaks {
 		pk := pk
 		for _, d := range depths {
@@ -290,7 +300,15 @@ func c09Specs(tier string) []c09Spec {
 				return Op("cn", TInt, ch...)
 			})
 		}
-		for _, d := range []int{5, 6, 7, 8, 9, 13, 14, 15, 16, 17, 18, 30, 100, 1000} {
+		nestDepths := []int{5, 6, 7, 8, 9, 13, 14, 15, 16, 17, 18, 30, 100, 1000}
+		if tier == "thorough" {
+			nestDepths = nil
+			for d := 1; d <= 40; d++ {
+				nestDepths = append(nestDepths, d)
+			}
+			nestDepths = append(nestDepths, 100, 255, 256, 257, 1000, 5000)
+		}
+		for _, d := range nestDepths {
 			d := d
 			add(fmt.Sprintf("right-nested/%s/%d", pk.name, d), 0, func() *Node {
 				x := pk.mk()
@@ -323,7 +341,11 @@ func c09Specs(tier string) []c09Spec {
 	heavy := func(name string, expect int, events []int, build func() *Node) {
 		specs = append(specs, c09Spec{name: name, build: build, expect: expect, heavy: true, events: events})
 	}
-	for _, n := range []int{16382, 16383, 16384, 16385, 16386} {
+	evSizes := []int{16382, 16383, 16384, 16385, 16386}
+	if tier == "thorough" {
+		evSizes = []int{16000, 16376, 16377, 16378, 16379, 16380, 16381, 16382, 16383, 16384, 16385, 16386, 16387, 16388, 16390, 16400, 17000}
+	}
+	for _, n := range evSizes {
 		n := n
 		heavy(fmt.Sprintf("nodes/const/%d", n), 0, []int{0}, func() *Node { return sumTreeNode(n, one) })
 		evx := 1
@@ -344,7 +366,11 @@ func c09Specs(tier string) []c09Spec {
 			return sumTreeNode(n/3, func(int) *Node { return Op("+", TInt, Var("i0", TInt), Lit(int64(1))) })
 		})
 	}
-	for _, n := range []int{32765, 32766, 32767, 32768, 32769, 40000} {
+	nodeSizes := []int{32765, 32766, 32767, 32768, 32769, 40000}
+	if tier == "thorough" {
+		nodeSizes = []int{30000, 32700, 32760, 32761, 32762, 32763, 32764, 32765, 32766, 32767, 32768, 32769, 32770, 32771, 32772, 32780, 33000, 40000, 65535, 65536, 65537, 70000}
+	}
+	for _, n := range nodeSizes {
 		n := n
 		ex := 0
 		if n > 32767 {
